@@ -265,14 +265,28 @@ func (c *Ctx) registration() {
 					target = f.Name()
 				}
 			case *ast.FuncLit:
-				// must call enqueueStatefulSet unconditionally (top-level statement)
-				for _, s := range x.Body.List {
-					if es, ok := s.(*ast.ExprStmt); ok {
-						if ce, ok := es.X.(*ast.CallExpr); ok {
-							if f := gf.StaticCallee(info, ce); f != nil && f.Name() == "enqueueStatefulSet" {
-								target = "enqueueStatefulSet"
-							}
+				// must call enqueueStatefulSet on every path: no exit of the literal is reachable without passing a call of it
+				var enq []ast.Node
+				for _, ce := range callsIn(x.Body, false) {
+					if f := gf.StaticCallee(info, ce); f != nil && f.Name() == "enqueueStatefulSet" {
+						enq = append(enq, ce)
+					}
+				}
+				if len(enq) > 0 && len(x.Body.List) > 0 {
+					lfn, _ := c.LitAnalysis(info, x, name+" "+k)
+					aU := lfn.FromUntil(x.Body.List[0], gf.TrueState(), enq...)
+					escapes := false
+					ast.Inspect(x.Body, func(n ast.Node) bool {
+						if r, ok := n.(*ast.ReturnStmt); ok && aU.StateBefore(r).Reachable() {
+							escapes = true
 						}
+						return true
+					})
+					if ir := lfn.ImplicitReturn(); ir != nil && aU.StateBefore(ir).Reachable() {
+						escapes = true
+					}
+					if !escapes {
+						target = "enqueueStatefulSet"
 					}
 				}
 			}
